@@ -246,11 +246,13 @@ func (o *structFieldsJSON) Get(key string) (json.RawMessage, bool) {
 func (o *structFieldsJSON) Delete(key string) {
 	delete(o.Fields, key)
 
-	for i, existing := range o.Keys {
-		if existing == key {
-			o.Keys = append(o.Keys[:i], o.Keys[i+1:]...)
+	kept := make([]string, 0, len(o.Keys))
+	for _, existing := range o.Keys {
+		if existing != key {
+			kept = append(kept, existing)
 		}
 	}
+	o.Keys = kept
 }
 
 func (o *structFieldsJSON) ToJSON() ([]byte, error) {
